@@ -46,8 +46,13 @@ class Prop(SeqProp):
     # a multi-threaded parent (harness/forkthread.py): a child is forked while another thread of the parent stands between the seek
     # and the read of an access; oracle only (the model's processes are single-threaded)
     def extra_scenarios(self, rng, tier):
-        return [{"kind": "threaded-parent", "variant": v, "seed": rng.randrange(1 << 30)}
-                for _ in range(1 if tier == "quick" else 6) for v in VARIANTS]
+        out = [{"kind": "threaded-parent", "variant": v, "seed": rng.randrange(1 << 30)}
+               for _ in range(1 if tier == "quick" else 6) for v in VARIANTS]
+        # a forked child without a file descriptor to spare (harness/forklimit.py): it must give up the inherited handle before
+        # it opens its own
+        out += [{"kind": "no-spare-descriptor", "variant": v, "seed": rng.randrange(1 << 30)}
+                for _ in range(1 if tier == "quick" else 4) for v in VARIANTS]
+        return out
 
     def run_extra(self, desc):
         import signal
@@ -55,7 +60,8 @@ class Prop(SeqProp):
         import sys as _sys
         outcomes = []
         for attempt in range(2):
-            p = subprocess.Popen([_sys.executable, "-W", "ignore", "-m", "harness.forkthread", desc["variant"], str(desc["seed"])],
+            module = "harness.forklimit" if desc["kind"] == "no-spare-descriptor" else "harness.forkthread"
+            p = subprocess.Popen([_sys.executable, "-W", "ignore", "-m", module, desc["variant"], str(desc["seed"])],
                                  cwd=core.VERIF, stdout=subprocess.PIPE, stderr=subprocess.STDOUT, text=True,
                                  start_new_session=True)
             try:
